@@ -55,9 +55,28 @@ ELEMENTWISE = [{'op': 'map', 'f': 'inc'}, {'op': 'map', 'f': 'dbl'}, {'op': 'fil
 STRUCTURAL = [{'op': 'aggregateByKey'}, {'op': 'foldByKey'}, {'op': 'countByKey'}, {'op': 'cogroup_self'}, {'op': 'coalesce', 'n': 2}, {'op': 'coalesce', 'n': 1}, {'op': 'repartition', 'n': 3}, {'op': 'sortBy'}, {'op': 'distinct'},
               {'op': 'reduceByKey'}, {'op': 'groupByKey'}, {'op': 'zipWithIndex'}, {'op': 'glom'}, {'op': 'union_self'},
               {'op': 'sampleByKey', 'seed': 5}]
+# DataFrame jobs over the same data (the tasks of the sql layer travel to the pools like any others)
+DF_STAGES = [{'op': 'df', 'what': w} for w in ('groupBy', 'rollup', 'cube', 'intersect', 'intersectAll', 'exceptAll', 'distinct', 'join')]
 ACTIONS = ['collect', 'collect', 'count', 'collectInner', 'collectInner', 'unpersist', 'reduce', 'reduceMax', 'fold', 'foldMax', 'take3', 'first', 'reduce', 'aggregate', 'takeSample', 'collect', 'foreach', 'foreachPartition']
 
 BACKENDS = ['thread', 'thread+datapickle', 'mp+cloudpickle+datapickle', 'mp+cloudpickle', 'mp+dill', 'ppe+cloudpickle', 'ppe+dill', 'reversed', 'shuffled']
+
+
+def df_stage(sc, r, what, table):
+    """(x % 3, x) pairs as a two-column DataFrame, one relational operation, back to a sorted dataset of tuples"""
+    from pysparkling.sql import functions as F
+    from pysparkling.sql.session import SparkSession
+    spark = SparkSession(sc)
+    df = spark.createDataFrame(r.map(table['kv']), ['k', 'v'])
+    if what in ('groupBy', 'rollup', 'cube'):
+        d = getattr(df, what)('k').agg(F.count('v').alias('n'), F.sum('v').alias('s'))
+    elif what in ('intersect', 'intersectAll', 'exceptAll'):
+        d = getattr(df, what)(df.filter(df.v > 2))
+    elif what == 'distinct':
+        d = df.distinct()
+    else:
+        d = df.join(df.filter(df.v > 2).withColumnRenamed('v', 'w'), on=['k'], how='left')
+    return d.rdd.map(tuple).sortBy(repr)
 
 
 def build(sc, pipe, table, handles=None):
@@ -72,6 +91,8 @@ def build(sc, pipe, table, handles=None):
             r = r.persist()
             if handles is not None:
                 handles.append(r)
+        elif k == 'df':
+            r = df_stage(sc, r, o['what'], table)
         elif k == 'coalesce':
             r = r.coalesce(o['n'])
         elif k == 'repartition':
@@ -339,6 +360,8 @@ class C03(Prop):
                 ops.append({'op': 'persist'})
             elif not small:
                 ops.append(dict(rng.choice(STRUCTURAL)))
+        if not small and rng.random() < .12 and not any(o['op'] in [q['op'] for q in STRUCTURAL] for o in ops):
+            ops.append(dict(rng.choice(DF_STAGES)))
         if not any(o['op'] == 'persist' for o in ops) and rng.random() < .5:
             ops.insert(rng.randint(0, len(ops)), {'op': 'persist'})
         actions = ['collect'] + [rng.choice(ACTIONS) for _ in range(rng.randint(1, 2))]
@@ -411,6 +434,11 @@ class C03(Prop):
         for b in BACKENDS:
             for pipe in (base, samp, coal, nested):
                 out.append({'kind': 'backend', 'pipe': pipe, 'backend': b, 'seed': 1})
+        # DataFrame jobs on the process pools and the reordering pools (sub-totals, set operations, joins)
+        for b in ('mp+cloudpickle', 'ppe+dill', 'mp+cloudpickle+datapickle', 'thread', 'reversed'):
+            for st in DF_STAGES:
+                out.append({'kind': 'backend', 'pipe': {'n': 3, 'data': list(range(12)), 'ops': [dict(st)], 'actions': ['collect', 'count']},
+                            'backend': b, 'seed': 1})
         out.append({'kind': 'deadstores'})
         for b in ('sched', 'thread', 'mp+cloudpickle', 'ppe+dill', 'reversed'):
             out.append({'kind': 'model', 'n': 3, 'data': list(range(9)), 'fraction': .5, 'seed': 4, 'backend': b, 'order': [2, 0, 1],
